@@ -462,6 +462,7 @@ def engine_a_check(pid, tier, jobs, required_reach, assumptions, level_note, out
         "bounds": bounds or {},
         "per_harness": per_harness,
         "functions_encoded": sorted(funcs.items(), key=lambda kv: -kv[1])[:80],
+        "dependency_functions_encoded": sorted(f for f in funcs if "openfga/language" not in f)[:120],
         "functions_encoded_count": len(funcs),
         "queries": queries,
         "assertions_discharged_by_solver": asserts_sym,
